@@ -213,7 +213,24 @@ def take_snapshot(mach, where):
         attr = mach.model_attribute
         info = {'where': where, 'fp': fingerprint(rig), 'recs': recs(rig),
                 'raw': [copy.deepcopy(getattr(m, attr, None)) for m in mach.models]}
-        info['blob'] = pickle.dumps(mach, protocol=SNAP['protocol'])
+        # the tables at this very instant (incl. IdentManager.current) for the correspondence with the Lean model
+        numb, sti = Numbering(), StateIndex()
+        objs = []
+        for i, m in enumerate(mach.models):
+            numb.add(m, 1 + i)
+            objs.append(m)
+        for j, c in enumerate(mach.__dict__.get('machine_context', [])):
+            numb.add(c, 10 + j)
+            objs.append(c)
+        n = 20
+        for l in mach.__dict__.get('model_context_map', {}).values():
+            for c in l:
+                if id(c) not in numb.by_id:
+                    numb.add(c, n)
+                    objs.append(c)
+                    n += 1
+        info.update(numb=numb, sti=sti, objs=objs, tab=tables_of(rig, numb, sti))
+        info['blob'] = pickle.dumps((mach, objs), protocol=SNAP['protocol'])
         SNAP['out'].append(info)
     except Exception as e:   # noqa: BLE001 — judged by the harness afterwards, the event itself goes on
         SNAP['out'].append({'where': where, 'error': '%s: %s' % (type(e).__name__, e)})
@@ -865,7 +882,9 @@ def tables_of(rig, numb, sti):
     t = {'models': [numb.num(m) for m in mach.models],
          'mstate': [[numb.num(m), sti.of(canon_state(getattr(m, attr, None)))] for m in mach.models],
          'mctx': [numb.num(c) for c in d.get('machine_context', [])],
-         'ctx': [], 'graphs': [], 'qdict': []}
+         'ctx': [], 'graphs': [], 'qdict': [],
+         # IdentManager.current names the calling thread: it is inside an event of this (locked) machine
+         'ident': [1 if getattr(d.get('_ident'), 'current', 0) == threading.get_ident() else 0]}
     if 'model_context_map' in d:
         t['ctx'] = [[numb.key(k), [numb.num(c) for c in v]] for k, v in d['model_context_map'].items()]
     if 'model_graphs' in d:
@@ -885,6 +904,7 @@ def enc_tables(t):
     out += [len(t['ctx'])] + [x for k, v in t['ctx'] for x in [k, len(v)] + v]
     out += [len(t['graphs'])] + [x for e in t['graphs'] for x in e]
     out += [len(t['qdict'])] + [x for k, v in t['qdict'] for x in [k, len(v)] + v]
+    out += [t['ident'][0]]
     return out
 
 
@@ -918,6 +938,8 @@ def dec_tables(nums, pos):
             pos += 2 + ln
         return r
     t = {'models': nats(), 'mstate': pairs(), 'mctx': nats(), 'ctx': tab(), 'graphs': pairs(), 'qdict': tab()}
+    t['ident'] = [nums[pos]]
+    pos += 1
     return t, pos
 
 
@@ -1118,7 +1140,7 @@ def rig_of_copy(mach):
     return Rig(mach, list(mach.models), mctx, [extra])
 
 
-def judge_midevent(case, p, sn, fail, stats):
+def judge_midevent(case, p, sn, fail, stats, reqs=None):
     """a snapshot taken while an event was being processed (item p-1 of the history, queues empty): it must be
     picklable, structurally the machine as it was at that instant, and react like a machine at rest with the same
     configuration and the same model states (the unfinished part of the event lives on the call stack, not in the
@@ -1128,11 +1150,21 @@ def judge_midevent(case, p, sn, fail, stats):
         fail('monitor', 'not-picklable-mid-event', '%s: %s' % (tag, sn['error']))
         return
     try:
-        C = rig_of_copy(pickle.loads(sn['blob']))
+        cmach, cobjs = pickle.loads(sn['blob'])
+        C = rig_of_copy(cmach)
     except Exception as e:   # noqa: BLE001
         fail('monitor', 'not-picklable-mid-event', '%s: loads: %s: %s' % (tag, type(e).__name__, e))
         return
     cm = C.machine
+    if reqs is not None:
+        numb, rho = sn['numb'], []
+        for o, c in zip(sn['objs'], cobjs):
+            numb.add(c, numb.by_id[id(o)] + 100)
+            rho.append([numb.by_id[id(o)], numb.by_id[id(o)] + 100])
+        tabC = tables_of(C, numb, sn['sti'])
+        nums = [1] + kind_of(case) + enc_tables(sn['tab']) + [len(rho)] + [x for e in rho for x in e] + [0, 0, 0]
+        stats['midevent_lean'] = stats.get('midevent_lean', 0) + 1
+        reqs.append({'p': p, 'nums': nums, 'R': tabC, 'O': [], 'F': tabC, 'recctx': [], 'midevent': sn['where']})
     scope_left = bool(cm.__dict__.get('_stack')) or any(
         getattr(st, '_scope', None) for st in iter_states(cm))
     ident_left = getattr(cm.__dict__.get('_ident'), 'current', 0) != 0
@@ -1197,18 +1229,9 @@ def iter_states(mach):
     return walk(top)
 
 
-SIG_SCOPE = 'C15:mid-event:hierarchical-scope-pickled'
-SIG_IDENT = 'C15:mid-event:IdentManager.current-pickled'
-
-
 def midevent_signature(case, scope_left, ident_left, clause):
-    """narrow classifiers of the two open findings about snapshots taken inside a callback: the structural condition is
-    read off the unpickled machine itself"""
-    g, nested, locked, asy = FLAGS[case['cls']]
-    if nested and scope_left and clause in ('continuation', 'structure'):
-        return SIG_SCOPE
-    if locked and ident_left and clause == 'contexts':
-        return SIG_IDENT
+    """no open finding (the scope of the event in progress and IdentManager.current used to be pickled; repaired in
+    /repo b080617, cf88f30; witnesses in corpus/C15/): every failing clause is a violation"""
     return None
 
 
@@ -1249,7 +1272,7 @@ def run_case(case, want_requests=True):
             rb = list(MODREC)
             for sn in snaps:
                 stats['midevent_' + sn['where']] = stats.get('midevent_' + sn['where'], 0) + 1
-                judge_midevent(case, p, sn, fail, stats)
+                judge_midevent(case, p, sn, fail, stats, reqs if want_requests else None)
             if oa != ob or ra != rb or model_states(A) != model_states(B):
                 # A has been pickled p times, B never: dumps must not disturb the original
                 fail('monitor', 'dumps-disturbs-original', 'prefix %d item %r: pickled original %r %r, control %r %r'
@@ -1595,7 +1618,8 @@ def work(tier, seed, wid, cls_names, n):
                              ('self_model', str(any(m['kind'] == 'self' for m in case['models']))),
                              ('ctx_mode', case['ctx_mode'])):
                 ex.stats[key][val] = ex.stats[key].get(val, 0) + 1
-            for key in ('snapshots', 'cont_steps', 'moved', 'exceptions', 'lockprobes', 'lean_steps', 'control_mismatch', 'pokes'):
+            for key in ('snapshots', 'cont_steps', 'moved', 'exceptions', 'lockprobes', 'lean_steps', 'control_mismatch', 'pokes',
+                        'midevent_callback', 'midevent_concurrent', 'midevent_lean', 'midevent_skipped'):
                 ex.stats['steps'][key] = ex.stats['steps'].get(key, 0) + st.get(key, 0)
             ex.traces_validated += st['snapshots']
             if st['snapshots'] >= 2 and st['moved'] >= 1:
@@ -1729,7 +1753,7 @@ class C15(runner.Check):
     strict_correspondence = True
     theorems = ('TM.C15_rekey', 'TM.C15_queues', 'TM.C15_queues_separate', 'TM.C15_graphs', 'TM.C15_models', 'TM.C15_tables_full', 'TM.C15_full',
                 'TM.C15_behaviour_invariant', 'TM.C15_held_locks_copy', 'TM.C15_held_locks_orig', 'TM.C15_frame',
-                'TM.C15_midevent_partial', 'TM.C15_midevent_counterexample', 'TM.C15_midevent_full_false')
+                'TM.C15_midevent_full', 'TM.C15_at_rest')
     manifest = dict(
         level='proof', design='DESIGN.md 4/C15; design_notes/C15.md',
         text="Partial. Lean 4 theorems over the identity-keyed side tables (model_context_map, model_graphs, "
@@ -1779,8 +1803,7 @@ class C15(runner.Check):
                 'driving coroutine while another model\'s event is suspended in a slow callback. Such a copy is judged '
                 'against a control AT REST with the same configuration and the same model states: the unfinished part of '
                 'the event lives on the call stack of the original, not in the machine (reading of "reacts like the '
-                'original" for a snapshot that has no call stack). Two open findings under this reading: the scope of '
-                'the event in progress (hierarchical classes) and IdentManager.current (locked classes) are pickled',
+                'original" for a snapshot that has no call stack)',
                 'a copy is itself a machine in a reachable state: copy-of-copy(-of-copy) chains are judged like first '
                 'copies; pickling THROUGH a model (pickle.dumps(model), [models], (model, machine)) is pickling the '
                 'machine and is judged the same way, except that the graph of the root model may lack the active mark '
